@@ -350,7 +350,11 @@ class Session:
             if kt is not None:
                 kterms.append((kf, kt))
         excl = [z3.Not(kt) for _, kt in kterms]
-        r, m = fresh_check(ctx.pc + [neg] + excl, ctx.timeout_ms, want_model=True, stats=ctx.stats)
+        rel = ctx.relevant(neg, *excl)
+        r, m = fresh_check(rel + [neg] + excl, ctx.timeout_ms, want_model=True, stats=ctx.stats)
+        if r == "sat":
+            # complete model over the whole pc (inputs outside the slice need consistent values)
+            r, m = fresh_check(ctx.pc + [neg] + excl, ctx.timeout_ms, want_model=True, stats=ctx.stats)
         if r == "unknown":
             self.checks.append((name, "unknown", rec))
             return False
